@@ -15,6 +15,8 @@ CLAIMED = {
  "C14": ("exploration", "6.14", "executor-change plans (fresh / reused operator, fresh / reused key, malformed) registered around other validator operations with node restarts in between; at the plan height the engine set, state and executor list must be exactly the plan's and block processing must not fail", "seeded simulation with restart faults and engine stub"),
  "C07": ("fault_enumeration", "6.7", "for each generated deposit (recipient x amount x payload classes) the handler is executed fault-free while its calls through the bank / account-keeper seams and the hook-target message server are recorded, then re-executed from the same state once per (call index x {error, panic}); contained-region faults must still yield SUCCESS with a complete credit or a complete refund, other faults must abort atomically and be retryable, the next sequence must always be processable, hook gas is bounded by the allowance", "systematic fault enumeration at every recorded dependency call over seeded inputs"),
  "C12": ("exploration", "6.12", "every permissioned message of both modules sent by current / past role holders, authorities and strangers across role rotations, executor-list and parameter changes, MsgExecuteMessages batches and bridge-info re-pointing attempts; access-table oracle for soundness and completeness, atomic rejection", "lock-step access-table model over real BaseApp nodes (L1 and L2)"),
+ "C04": ("exploration", "6.4", "two-chain simulation with a faithful executor whose trees are built only from L2 withdrawal events by the independent prover: amounts up to and beyond 64 bits, several denoms, upper-case recipients, trees of 1-33 leaves, refunds of failed deposits, withdrawals performed inside hooks, challenger deletions; every recorded claimable withdrawal must be finalised exactly once within the drain budget", "whole-bridge deterministic simulation with bounded-liveness drain"),
+ "C08": ("exploration", "6.8", "whole-bridge simulation (real L1 + L2 nodes, users, racing executors, proposer, challenger, claimers) over a lossy / duplicating / delaying / reordering / partitioning network with crash-restart of either node; the peg equation is evaluated from parsed events and public queries after every block of either chain, then a fault-free drain must pay every claim exactly once and restore escrow = supply and combined holdings", "whole-bridge deterministic simulation with network + crash fault injection and cross-chain conservation oracle"),
 }
 PENDING = {}
 NA = {"C17": "pure functions of their byte inputs (hash/derivation formats, no aliasing): no schedule, clock, fault, crash point or history to simulate; deciding it is differential input testing, not deterministic simulation (DESIGN 6.17). Format agreement on system-reachable inputs is observed as a by-product by C03/C04/C08 through the independent prover."}
